@@ -59,6 +59,12 @@ class TranslatorPython(Translator):
         )
 
     def from_ExprOp(self, expr):
+        if expr.op == "<<" and len(expr.args) == 2:
+            # A count >= size gives 0: do not let Python build a huge integer
+            arg, count = map(self.from_expr, expr.args)
+            return "(((%s << %s) & 0x%x) if %s < %d else 0)" % (
+                arg, count, (1 << expr.size) - 1, count, expr.size
+            )
         if expr.op in self.op_no_translate:
             args = list(map(self.from_expr, expr.args))
             if len(expr.args) == 1:
